@@ -21,7 +21,8 @@
 (***************************************************************************)
 EXTENDS Naturals, Sequences, FiniteSets, SequencesExt
 
-CONSTANTS Mailbox, Monitor, HistLen
+CONSTANTS Mailbox, Monitor, HistLen,
+          Cap                  \* per-mailbox message cap (0 = none): a delivery beyond it evicts the oldest message
 
 VARIABLES boxes,      \* [Mailbox -> Seq([id, subj, seen])]
           stored,     \* Seq(<<mailbox, id>>): every message ever stored, in order (for the hub history)
@@ -45,17 +46,24 @@ IInit ==
 
 (* SMTP: an acknowledged transaction stores one message in each target    *)
 (* mailbox, in order; newids[i] is the id given in targets[i]             *)
-RECURSIVE AppendAll(_, _, _, _)
-AppendAll(b, targets, newids, subj) ==
-    IF targets = <<>> THEN b
-    ELSE AppendAll([b EXCEPT ![Head(targets)] = Append(@, [id |-> Head(newids), subj |-> subj, seen |-> FALSE])],
-                   Tail(targets), Tail(newids), subj)
+(* copies are stored one after the other; a copy that takes its mailbox over the cap evicts that   *)
+(* mailbox's oldest message first, which the monitors hear about before the new message           *)
+RECURSIVE DeliverAll(_, _, _, _, _)
+DeliverAll(b, evs, targets, newids, subj) ==
+    IF targets = <<>> THEN <<b, evs>>
+    ELSE LET m    == Head(targets)
+             app  == Append(b[m], [id |-> Head(newids), subj |-> subj, seen |-> FALSE])
+             over == Cap > 0 /\ Len(app) > Cap
+             gone == IF over THEN <<MonEvent("message-deleted", m, app[1].id)>> ELSE <<>>
+         IN  DeliverAll([b EXCEPT ![m] = IF over THEN Tail(app) ELSE app],
+                        evs \o gone \o <<MonEvent("message-stored", m, Head(newids))>>,
+                        Tail(targets), Tail(newids), subj)
 Deliver(targets, newids, subj) ==
     /\ Len(targets) = Len(newids)
     /\ \A i \in DOMAIN targets : newids[i] \notin Ids(targets[i])
-    /\ boxes' = AppendAll(boxes, targets, newids, subj)
+    /\ LET res == DeliverAll(boxes, <<>>, targets, newids, subj)
+       IN  boxes' = res[1] /\ mon' = Announce(res[2])
     /\ stored' = stored \o [i \in DOMAIN targets |-> <<targets[i], newids[i]>>]
-    /\ mon' = Announce([i \in DOMAIN targets |-> MonEvent("message-stored", targets[i], newids[i])])
     /\ UNCHANGED pop
 
 RemoveFrom(b, m, ids) == [b EXCEPT ![m] = SelectSeq(@, LAMBDA x : x.id \notin ids)]
@@ -126,6 +134,8 @@ DueRespectsFilter == \A k \in Monitor : \A i \in DOMAIN mon[k].due :
                         mon[k].filter = "" \/ mon[k].due[i].mb = mon[k].filter
 (* ids are unique per mailbox *)
 IdsUnique == \A m \in Mailbox : \A i, j \in DOMAIN boxes[m] : boxes[m][i].id = boxes[m][j].id => i = j
+(* the cap holds at every moment *)
+CapHolds == Cap > 0 => \A m \in Mailbox : Len(boxes[m]) <= Cap
 (* per message, a monitor is owed "stored" before "deleted" *)
 StoredBeforeDeleted ==
     \A k \in Monitor : \A i, j \in DOMAIN mon[k].due :
